@@ -369,7 +369,7 @@ class RefModel:
         s, so, ch = self.spec["links"][li][0:3]
         cur, init = t, self.init_time(li)
         names = [a[0] for a in ch]
-        if "dpush" in names and "dpull" in names[: names.index("dpush")]:
+        if any(a == "dpull" and "dpush" in names[i + 1:] for i, a in enumerate(names)):
             return "skip"  # request history of a delay-to-pull adapter upstream of a delay-to-push is not modelled
         for ai in range(len(ch) - 1, -1, -1):
             a = ch[ai]
